@@ -4,12 +4,15 @@ package all
 
 import (
 	"verifharness/hx"
+	"verifharness/mods/coinswap"
+	"verifharness/mods/farm"
 	"verifharness/mods/htlc"
 	"verifharness/mods/mt"
 	"verifharness/mods/nft"
 	"verifharness/mods/oracle"
 	"verifharness/mods/random"
 	"verifharness/mods/record"
+	"verifharness/mods/token"
 )
 
 // Entry is one module scenario.
@@ -21,12 +24,15 @@ type Entry struct {
 // Entries lists the registered scenarios (extended as module harnesses land).
 func Entries() []Entry {
 	return []Entry{
+		{"coinswap", func(e *hx.Env) hx.Runner { return coinswap.New(e) }},
+		{"farm", func(e *hx.Env) hx.Runner { return farm.New(e) }},
 		{"htlc", func(e *hx.Env) hx.Runner { return htlc.New(e) }},
 		{"mt", func(e *hx.Env) hx.Runner { return mt.New(e) }},
 		{"nft", func(e *hx.Env) hx.Runner { return nft.New(e) }},
 		{"oracle", func(e *hx.Env) hx.Runner { return oracle.New(e) }},
 		{"random", func(e *hx.Env) hx.Runner { return random.New(e) }},
 		{"record", func(e *hx.Env) hx.Runner { return record.New(e) }},
+		{"token", func(e *hx.Env) hx.Runner { return token.NewFor(e) }},
 	}
 }
 
